@@ -18,7 +18,7 @@ func propC12(ch core.Chooser, st *core.Stats) error {
 	env := NewEnv(kind)
 	defer env.Cleanup()
 	hfs := hookfs.New(env.FS)
-	cfg := dbx.Config{SegSize: uint32(core.PickInt(ch, "segsize", []int{1024, 2048, 8192})), MinSeg: 520, Frag: 0.02}
+	cfg := dbx.Config{SegSize: uint32(core.PickInt(ch, "segsize", []int{600, 1024, 2048, 8192})), MinSeg: 520, Frag: 0.02}
 	ch.Note("config: %s fs=%s", cfg, kind)
 	db, err := dbx.Open(env.Dir, cfg, hfs)
 	if err != nil {
@@ -54,7 +54,39 @@ func propC12(ch core.Chooser, st *core.Stats) error {
 		states = append(states, dbx.Clone(model))
 		return nil
 	}
-	for i, n := 0, ch.Int("prefill", 0, core.Scale(40, 120)); i < n; i++ {
+	// directed prefix (drawn): put the whole universe with small values, then delete a run of
+	// keys back to back: with small segments this leaves sealed segments that hold nothing but
+	// delete records whose put records live in older segments - a backup that drops or reorders
+	// any of them resurrects keys
+	burst := core.Pct(ch, "delete_burst", 35)
+	if burst {
+		ch.Note("-- directed prefix: delete burst")
+		for _, k := range ukeys {
+			step++
+			v := mkValue(step, core.PickInt(ch, "burst_vlen", []int{1, 5, 20, 60}))
+			if err := core.Safe(func() error { return db.Put([]byte(k), []byte(v)) }); err != nil {
+				return fmt.Errorf("Put failed: %v", err)
+			}
+			model[k] = v
+			states = append(states, dbx.Clone(model))
+		}
+		from := ch.Int("burst_from", 0, len(ukeys)-1)
+		to := ch.Int("burst_to", from, len(ukeys)-1)
+		ch.Note("put all %d keys, delete keys %d..%d", len(ukeys), from, to)
+		for _, k := range ukeys[from : to+1] {
+			if err := core.Safe(func() error { return db.Delete([]byte(k)) }); err != nil {
+				return fmt.Errorf("Delete failed: %v", err)
+			}
+			delete(model, k)
+			states = append(states, dbx.Clone(model))
+		}
+		st.Count("delete_burst_prefixes", 1)
+	}
+	maxPrefill := core.Scale(40, 120)
+	if burst {
+		maxPrefill = 8
+	}
+	for i, n := 0, ch.Int("prefill", 0, maxPrefill); i < n; i++ {
 		if core.Pct(ch, "precompact", 4) {
 			if err := core.Safe(func() error { _, e := db.Compact(); return e }); err != nil {
 				return fmt.Errorf("Compact failed: %v", err)
